@@ -20,8 +20,11 @@ def run(ctx):
         f1 = ex.submit(cd.emit, ctx, "U12", 6 if quick else 7)
         f2 = ex.submit(cd.emit, ctx, "S9", 30, simulate=1 if quick else 10, depth=27, minpts=12)
         f3 = ex.submit(ve.emit, ctx, (3, 3, 2), 4 if quick else 5)
+        # eight cells in a 3 x 3 x 1 box: contains the square ring (genus 1: V - E + F = 0), whose counts no formula for spheres gives
+        f4 = ex.submit(ve.emit, ctx, (3, 3, 1), 8, 8)
         crecs = f1.result() + f2.result()
         vrecs = f3.result()
+        rings = [r for r in f4.result() if [1, 1, 0] not in [list(c) for c in r["cells"]]]
     # T1: the readers accept the transcribed writers on a small universe of index meshes, and reject wrong writers
     from .. import tlc
     res = tlc.run("MeshWriters", "SPECIFICATION WSpec\nINVARIANT T1_ReadersAcceptWriters\nINVARIANT T1_WrongWritersRejected\n"
@@ -30,7 +33,7 @@ def run(ctx):
     if res.violated:
         ctx.violation({"cls": "spec", "obs": res.violated, "tags": ["T1"], "msg": f"{res.violated} fails in MeshWriters.tla"},
                       {"tlc": res.stdout[-2000:]})
-    mesh_eval.run(ctx, crecs, vrecs)
+    mesh_eval.run(ctx, crecs, vrecs, must=rings)
     ctx.exhaustive = False
     return ctx.finish(rule=RULE, assumptions=[
         "the reader machines are written from the format definitions as known to the author (no independent parser library "
